@@ -305,6 +305,10 @@ func runC10(r *core.Run) {
 	nbhdSub(r, "nbhd-spec/all+attr+autoid+align=attr", core.MustCfg("all+attr+autoid+align=attr"), func(s *core.Sub, cv *core.Conv, w []byte) {
 		c10Case(s, nb.get(cv), w)
 	})
+	nn := newC10Pool("all+attr+autoid+align=attr")
+	nestSub(r, "nesting/all+attr+autoid+align=attr", core.MustCfg("all+attr+autoid+align=attr"), core.Pick(r, 3, 4), func(s *core.Sub, cv *core.Conv, w []byte) {
+		c10Case(s, nn.get(cv), w)
+	})
 }
 
 type c10Pool struct {
